@@ -6,6 +6,7 @@ package main
 
 import (
 	"flag"
+	"fmt"
 	"math/rand/v2"
 
 	"github.com/drshriveer/gtools/set"
@@ -41,6 +42,7 @@ type jcase struct {
 	Init  uint64 `json:"init"`
 	Ops   []op   `json:"ops"`
 	Obs   []obs  `json:"obs"`
+	Panic string `json:"panic,omitempty"` // the LAST operation of ops panicked (it has no entry in obs)
 }
 
 func conv[T anyUint](xs []uint64) []T {
@@ -52,9 +54,18 @@ func conv[T anyUint](xs []uint64) []T {
 }
 
 // runSeq executes the operations on a real BitSet[T].
-func runSeq[T anyUint](init uint64, ops []op) []obs {
+// Every operation runs under recover: the sequence is cut after a panicking operation, the case
+// then lists one operation more than it has observations, which no run of the specification or
+// of the model does — a failing input.
+func runSeq[T anyUint](init uint64, ops []op) (out []obs, done int, pmsg string) {
 	s := set.BitSet[T](init)
-	out := make([]obs, 0, len(ops))
+	out = make([]obs, 0, len(ops))
+	defer func() {
+		if r := recover(); r != nil {
+			pmsg = fmt.Sprint("panic: ", r)
+			done = len(out) + 1
+		}
+	}()
 	for _, o := range ops {
 		res := false
 		switch o.Op {
@@ -73,10 +84,10 @@ func runSeq[T anyUint](init uint64, ops []op) []obs {
 		}
 		out = append(out, obs{uint64(s), res})
 	}
-	return out
+	return out, len(ops), ""
 }
 
-func run(width int, init uint64, ops []op) []obs {
+func run(width int, init uint64, ops []op) ([]obs, int, string) {
 	switch width {
 	case 8:
 		return runSeq[f8](init, ops)
@@ -109,14 +120,15 @@ func galOp(o op) string {
 }
 
 func emit(out *gal.Out, kind string, width int, init uint64, ops []op) {
-	ob := run(width, init, ops)
+	ob, done, pmsg := run(width, init, ops)
+	ops = ops[:done]
 	g := "{| bc_init := " + gal.N(init) + "; bc_ops := " + gal.ListOf(ops, galOp) +
 		"; bc_obs := " + gal.ListOf(ob, func(o obs) string { return gal.Pair(gal.N(o.Bits), gal.Bool(o.Res)) }) + " |}"
 	w := width
 	if w == 65 {
 		w = 64
 	}
-	out.Case(g, jcase{kind, w, init, ops, ob})
+	out.Case(g, jcase{kind, w, init, ops, ob, pmsg})
 }
 
 func mask(width int) uint64 {
@@ -153,6 +165,9 @@ func flagOf(r *rand.Rand, width int, cur uint64) uint64 {
 	}
 }
 
+// maxArgs: longest argument list of the random sequences (every sixth call or so is long).
+var maxArgs = 16
+
 func randomCase(r *rand.Rand, out *gal.Out) {
 	widths := []int{8, 16, 32, 64, 65}
 	width := widths[r.IntN(len(widths))]
@@ -176,6 +191,9 @@ func randomCase(r *rand.Rand, out *gal.Out) {
 			args = []uint64{flagOf(r, width, cur)}
 		default:
 			k := r.IntN(5)
+			if maxArgs > 4 && r.IntN(3) == 0 {
+				k = 5 + r.IntN(maxArgs-4) // long argument lists (up to 16), zero flags included
+			}
 			args = make([]uint64, k)
 			for j := range args {
 				args[j] = flagOf(r, width, cur)
@@ -183,7 +201,10 @@ func randomCase(r *rand.Rand, out *gal.Out) {
 		}
 		ops = append(ops, op{name, args})
 		// track the state so later flags can be chosen relative to it (impl is the oracle here)
-		ob := run(width, init, ops)
+		ob, _, pmsg := run(width, init, ops)
+		if pmsg != "" || len(ob) == 0 {
+			break // the sequence ends at the panicking operation; emit records it
+		}
 		cur = ob[len(ob)-1].Bits
 	}
 	emit(out, "random", width, init, ops)
@@ -240,6 +261,7 @@ func main() {
 	prefix := flag.String("out", "c11", "output prefix")
 	mode := flag.String("mode", "random", "random|sweep|corpus")
 	n := flag.Int("n", 300, "number of random cases / number of stored values to sweep")
+	flag.IntVar(&maxArgs, "maxargs", 16, "longest argument list of random sequences")
 	flag.Parse()
 	r := gal.NewRand(*seed)
 	out := gal.NewOut(*prefix)
@@ -250,6 +272,25 @@ func main() {
 		emit(out, "corpus", 8, 3, []op{{"Remove", []uint64{6}}})
 		emit(out, "corpus", 8, 3, []op{{"Remove", []uint64{0}}})
 		emit(out, "corpus", 64, 1<<63|1, []op{{"Remove", []uint64{1<<63 | 2}}, {"Add", []uint64{0}}, {"Has", []uint64{0}}})
+		// long argument lists (5, 8, 9, 16, 17 items) for every variadic function, in every width: flags
+		// disjoint from the stored bits with and without the zero flag, partly present composites,
+		// repeats, and no argument at all
+		for _, width := range []int{8, 16, 32, 64, 65} {
+			top := uint64(1) << uint(min(width, 64)-1)
+			for _, k := range []int{5, 8, 9, 16, 17} {
+				disj := make([]uint64, k) // all disjoint from the stored value 1
+				mixed := make([]uint64, k)
+				for i := range disj {
+					disj[i] = uint64(2) << uint(i%(min(width, 64)-2))
+					mixed[i] = disj[i] | uint64(i%2)
+				}
+				withZero := append(append([]uint64{}, disj[:k-1]...), 0)
+				zeroFirst := append([]uint64{0}, disj[:k-1]...)
+				emit(out, "corpus-long", width, 1, []op{{"HasAny", disj}, {"HasAny", withZero}, {"HasAny", zeroFirst}, {"HasAny", mixed},
+					{"Add", withZero}, {"Remove", mixed}, {"Remove", withZero}, {"Make", mixed}, {"HasAny", append(disj[:k-1:k-1], top)},
+					{"Add", nil}, {"Remove", nil}, {"HasAny", nil}, {"Make", nil}, {"HasAny", withZero}})
+			}
+		}
 	case "triples":
 		for st := uint64(0); st < 256; st++ {
 			h := tripleSum(st)
